@@ -10,7 +10,8 @@
    (harness/cmd/c11/engine.go), which mirrors ucon.Server.verifyHeader's
    chain-dependent checks.
    State of /repo modelled: after dee6410 (block = one batch), 2b21c7f (head switch
-   = one batch), 3eba51b (side-chain verification checks the signature).
+   = one batch), 3eba51b (side-chain verification checks the signature), 599b875 (each fork block
+   is stored as soon as verifyAllSideChainBlocks has verified it).
    No proofs in this file. *)
 From Coq Require Export List NArith Bool.
 Export ListNotations.
@@ -275,25 +276,28 @@ Definition write_block_with_state (p b : block) (s : st) : st * err :=
 (* ---- verifyAllSideChainBlocks (test engine: look-back of two rounds) -------- *)
 Definition lookback (n : N) : N := if 2 <? n then n - 2 else 0.
 
-Fixpoint vasc_loop (d : disk) (first : N) (prev : block) (chain : list block) : err :=
+(* each block is stored (WriteBlockWithoutState, one batch) as soon as it is verified:
+   an error at a later block leaves the verified prefix of the fork in the database *)
+Fixpoint vasc_loop (s : st) (first : N) (prev : block) (chain : list block) : st * err :=
   match chain with
-  | [] => ENone
+  | [] => (s, ENone)
   | b :: r =>
+    let d := disk_of s in
     let lb := lookback (bnum b) in
-    if (lb <? first) && (match get_header_by_number t d lb with None => true | Some _ => false end) then EPanic
-    else if negb ((bnum prev + 1 =? bnum b) && (bid prev =? bpar b)) then EUnknownAnc
-    else if (bhv b =? 1) || (bhv b =? 2) then EBadHeader       (* verifySignature, consensus field *)
-    else if negb (bbv b =? 0) then EBadState
-    else vasc_loop d first b r
+    if (lb <? first) && (match get_header_by_number t d lb with None => true | Some _ => false end) then (s, EPanic)
+    else if negb ((bnum prev + 1 =? bnum b) && (bid prev =? bpar b)) then (s, EUnknownAnc)
+    else if (bhv b =? 1) || (bhv b =? 2) then (s, EBadHeader)       (* verifySignature, consensus field *)
+    else if negb (bbv b =? 0) then (s, EBadState)
+    else vasc_loop (if has_block d (bid b) then s else write_block b s) first b r
   end.
 
-Definition verify_all_side_chain_blocks (d : disk) (chain : list block) : err :=
+Definition verify_all_side_chain_blocks (s : st) (chain : list block) : st * err :=
   match chain with
-  | [] => ENone
+  | [] => (s, ENone)
   | b0 :: _ =>
-    match parent_block t d b0 with
-    | None => EUnknownAnc
-    | Some p => if negb (has_state d (broot p)) then EStateMissing else vasc_loop d (bnum b0) p chain
+    match parent_block t (disk_of s) b0 with
+    | None => (s, EUnknownAnc)
+    | Some p => if negb (has_state (disk_of s) (broot p)) then (s, EStateMissing) else vasc_loop s (bnum b0) p chain
     end
   end.
 
@@ -338,8 +342,8 @@ Definition insert_sidechain (ic : st -> list block -> st * err) (s : st) (chain 
   match skip_canonical (disk_of s) chain with
   | [] => (s, ENone)
   | chain =>
-    match verify_all_side_chain_blocks (disk_of s) chain with
-    | ENone =>
+    match verify_all_side_chain_blocks s chain with
+    | (s, ENone) =>
       let s := fold_left (fun s b => if has_block (disk_of s) (bid b) then s else write_block b s) chain s in
       let last := last chain (mkB 0 0 0 0 [] 0 0) in
       match info t (cur s) with
@@ -360,8 +364,8 @@ Definition insert_sidechain (ic : st -> list block -> st * err) (s : st) (chain 
             end
           end
       end
-    | EPanic => (die s, EPanic)
-    | e => (s, e)
+    | (s, EPanic) => (die s, EPanic)
+    | (s, e) => (s, e)
     end
   end.
 
